@@ -479,21 +479,21 @@ func c11Blocks(tier string) []*c11Block {
 	}
 	if tier == "quick" {
 		return []*c11Block{
-			{name: "a2/olds1", bss: []int{1, 2, 3}, alpha: 2, nOlds: 1, maxOld: 5, maxSrc: 7, sampleTarget: 300},
-			{name: "a2/olds2/len4", bss: []int{1, 2, 3}, alpha: 2, nOlds: 2, maxOld: 4, maxSrc: 7, sampleTarget: 400},
-			{name: "a2/olds2/len5", bss: []int{1, 2, 3}, alpha: 2, nOlds: 2, maxOld: 5, maxSrc: 7, sampleOnly: 250},
-			{name: "a2/olds3/len5", bss: []int{1, 2, 3}, alpha: 2, nOlds: 3, maxOld: 5, maxSrc: 7, sampleOnly: 250},
+			{name: "a2/olds1", bss: []int{1, 2, 3}, alpha: 2, nOlds: 1, maxOld: 5, maxSrc: 7, sampleTarget: 250},
+			{name: "a2/olds2/len4", bss: []int{1, 2, 3}, alpha: 2, nOlds: 2, maxOld: 4, maxSrc: 7, sampleTarget: 300},
+			{name: "a2/olds2/len5", bss: []int{1, 2, 3}, alpha: 2, nOlds: 2, maxOld: 5, maxSrc: 7, sampleOnly: 150},
+			{name: "a2/olds3/len5", bss: []int{1, 2, 3}, alpha: 2, nOlds: 3, maxOld: 5, maxSrc: 7, sampleOnly: 150},
 		}
 	}
 	return []*c11Block{
-		{name: "a2/olds1", bss: []int{1, 2, 3, 4}, alpha: 2, nOlds: 1, maxOld: 7, maxSrc: 9, sampleTarget: 3000},
-		{name: "a2/olds2/len5", bss: []int{1, 2, 3, 4}, alpha: 2, nOlds: 2, maxOld: 5, maxSrc: 9, sampleTarget: 4000},
-		{name: "a2/olds3/len3", bss: []int{1, 2, 3, 4}, alpha: 2, nOlds: 3, maxOld: 3, maxSrc: 9, sampleTarget: 3000},
-		{name: "a3/olds1", bss: []int{1, 2, 3, 4}, alpha: 3, nOlds: 1, maxOld: 5, maxSrc: 7, sampleTarget: 2500},
-		{name: "a3/olds2/len3", bss: []int{1, 2, 3, 4}, alpha: 3, nOlds: 2, maxOld: 3, maxSrc: 6, sampleTarget: 2500},
-		{name: "a2/olds2/len7", bss: []int{1, 2, 3, 4}, alpha: 2, nOlds: 2, maxOld: 7, maxSrc: 9, sampleOnly: 2000},
-		{name: "a2/olds3/len7", bss: []int{1, 2, 3, 4}, alpha: 2, nOlds: 3, maxOld: 7, maxSrc: 9, sampleOnly: 2000},
-		{name: "a3/olds3/len7", bss: []int{1, 2, 3, 4}, alpha: 3, nOlds: 3, maxOld: 7, maxSrc: 9, sampleOnly: 1500},
+		{name: "a2/olds1", bss: []int{1, 2, 3, 4}, alpha: 2, nOlds: 1, maxOld: 7, maxSrc: 9, sampleTarget: 1500},
+		{name: "a2/olds2/len5", bss: []int{1, 2, 3, 4}, alpha: 2, nOlds: 2, maxOld: 5, maxSrc: 9, sampleTarget: 2000},
+		{name: "a2/olds3/len3", bss: []int{1, 2, 3, 4}, alpha: 2, nOlds: 3, maxOld: 3, maxSrc: 8, sampleTarget: 1500},
+		{name: "a3/olds1", bss: []int{1, 2, 3, 4}, alpha: 3, nOlds: 1, maxOld: 5, maxSrc: 7, sampleTarget: 1200},
+		{name: "a3/olds2/len3", bss: []int{1, 2, 3, 4}, alpha: 3, nOlds: 2, maxOld: 3, maxSrc: 6, sampleTarget: 1200},
+		{name: "a2/olds2/len7", bss: []int{1, 2, 3, 4}, alpha: 2, nOlds: 2, maxOld: 7, maxSrc: 9, sampleOnly: 1000},
+		{name: "a2/olds3/len7", bss: []int{1, 2, 3, 4}, alpha: 2, nOlds: 3, maxOld: 7, maxSrc: 9, sampleOnly: 1000},
+		{name: "a3/olds3/len7", bss: []int{1, 2, 3, 4}, alpha: 3, nOlds: 3, maxOld: 7, maxSrc: 9, sampleOnly: 800},
 	}
 }
 
@@ -998,7 +998,6 @@ func c11RleCases(r *lib.Rng, tier string) []*c11Big {
 	bs := c11BS
 	out := []*c11Big{
 		{Name: "rle/nomatch-66bs+1", Flavour: "rle", Segs: []c11Seg{{Kind: "fresh", N: 66*bs + 1}}, Pref: -1},
-		{Name: "rle/lastrun-129bs+1000", Flavour: "rle", Segs: []c11Seg{{Kind: "fresh", N: 129*bs + 1000}}, Pref: -1},
 		{Name: "rle/match-long-tail", Flavour: "rle", OldBlk: []int{4}, OldTail: []int{999}, Pref: 0,
 			Segs: []c11Seg{{Kind: "fresh", N: 1000}, {Kind: "match", N: 2, File: 0, At: 1}, {Kind: "fresh", N: 4*c11MiB + bs + 1},
 				{Kind: "match", N: 1, File: 0, At: 0}, {Kind: "fresh", N: bs - 1}, {Kind: "match", N: 1, File: 0, At: 3}, {Kind: "oldtail", File: 0}}},
@@ -1006,7 +1005,7 @@ func c11RleCases(r *lib.Rng, tier string) []*c11Big {
 			Segs: []c11Seg{{Kind: "match", N: 3, File: 0, At: 0}, {Kind: "fresh", N: 4*c11MiB + 2*bs - 2 - r.Intn(3)},
 				{Kind: "match", N: 2, File: 1, At: 0}, {Kind: "fresh", N: r.Range(1, 3*bs)}}},
 	}
-	for _, sb := range []int{1, 2, 16} {
+	for _, sb := range []int{1, 16} {
 		l := 2*sb + wsync.MaxDataOp
 		ln := []int{l, l + 1, 2*l - sb, wsync.MaxDataOp + 2*sb - 1}[r.Intn(4)]
 		if sb == 1 {
@@ -1126,8 +1125,8 @@ func runC11(c *Ctx) error {
 			return err
 		}
 	}
-	if err := c11RandomSmall(c, c.Rng.Fork(), c.N(900, 12000)); err != nil {
+	if err := c11RandomSmall(c, c.Rng.Fork(), c.N(600, 5000)); err != nil {
 		return err
 	}
-	return c11ApplyGroup(c, c.Rng.Fork(), c.N(250, 2000))
+	return c11ApplyGroup(c, c.Rng.Fork(), c.N(200, 1000))
 }
